@@ -1272,6 +1272,55 @@ def g5_group_compat_laws(F, r):
                     r.ok(inst, "admitted" if admitted else "rejected")
                 else:
                     r.fail(inst, ("admitted" if admitted else "rejected") + " — a job may join a tour iff it has no compatibility value, the tour has none yet, or both are EQUAL", F.loc(m))
+    # merge (vicinity clustering folds a candidate job into a cluster): allowed iff both jobs carry NO value or EQUAL values — a cluster is inserted as one job under the
+    # source's value, so a candidate with a value must not hide inside a source without one (and vice versa)
+    MG = "vrp_core::models::goal::FeatureConstraint::merge"
+    mm = [x for x in F.trait_impl_methods(MG) if "CompatibilityConstraint" in x]
+    if len(mm) == 1:
+        for src in (0, 1):
+            for cand in (0, 1):
+                calls_seen = {"n": 0}
+
+                def m_compat(i_, a, h, rl, src=src, cand=cand, calls_seen=calls_seen):
+                    # first call = source, second = candidate (argument order of the match scrutinee); told apart by the job symbol the call is made on
+                    who = oe.strip_refs(a[0]) if a else None
+                    name = who[1] if who and who[0] == "sym" else ""
+                    is_src = name.startswith("source") or (not name.startswith("candidate") and calls_seen["n"] == 0)
+                    calls_seen["n"] += 1
+                    present = src if is_src else cand
+                    return oe.some(oe.ref(oe.sym("srcval" if is_src else "candval"))) if present else oe.NONE
+
+                def m_dimens(i_, a, h, rl):
+                    who = oe.strip_refs(a[0]) if a else None
+                    return oe.ref(oe.sym((who[1] if who and who[0] == "sym" else "job") + ".dimens"))
+                it = oe.Interp(F, mm[0], {1: oe.ref(oe.sym("self")), 2: oe.sym("source"), 3: oe.sym("candidate")}, fresh=True,
+                               call_models={"::get_job_compatibility": m_compat, "Job::dimens": m_dimens})
+                orig = it._run
+
+                def run(choices, orig=orig, calls_seen=calls_seen):
+                    calls_seen["n"] = 0
+                    return orig(choices)
+                it._run = run
+                try:
+                    paths = it.explore()
+                except oe.Undecided as e:
+                    r.ok(f"Compatibility merge [source={src},candidate={cand}]", f"not decided: not evaluable ({e})")
+                    continue
+                for p in paths:
+                    rel = [a[2] for a in p.assumptions if len(a) == 3 and isinstance(a[2], str) and a[2] in "LEG" and a[0] != "switch"]
+                    if src and cand and not rel:
+                        want = None
+                    else:
+                        want = (not src and not cand) or (bool(src and cand) and rel[0] == "E")
+                    merged = bool(p.ret) and p.ret[0] == "res" and p.ret[1] in ("Ok", 0)
+                    inst = f"Compatibility merge [source={'Some' if src else 'None'},candidate={'Some' if cand else 'None'}{',equal' if rel and rel[0] == 'E' else (',different' if rel else '')}]"
+                    if want is None:
+                        r.fail(inst, "two jobs with compatibility values are merged / refused without comparing the values", F.loc(mm[0]))
+                    elif merged == want:
+                        r.ok(inst, "merged" if merged else "refused")
+                    else:
+                        r.fail(inst, ("merged" if merged else "refused") + " — jobs may be clustered iff both carry no compatibility value or EQUAL ones: otherwise a job with a value rides "
+                               "inside a cluster that shows another (or no) value and ends up in a tour of a different compatibility class", F.loc(mm[0]))
     ms = [x for x in F.trait_impl_methods(EV) if "GroupConstraint" in x]
     if len(ms) != 1:
         raise AnchorError("GroupConstraint::evaluate")
